@@ -182,5 +182,5 @@ def run(ctx, f, rep):
     sub2 = Report("C05", rep.config)
     c06.run(ctx, f, sub2)
     for o in sub2.obls:
-        if o.rule in ("R06.1", "R06.2", "R06.4"):
+        if o.rule in ("R06.1", "R06.2", "R06.4", "R06.5"):
             (rep.ok if o.ok else rep.bad)("R05.5", o.key.replace(o.rule, "R05.5", 1), o.what, o.loc, o.detail)
